@@ -280,10 +280,11 @@ _reg(DecodeProp(
 F64_MODULE = "CvssVerif.Proofs.F64Round"
 F64_THEOREMS = ["CvssVerif.F64.rnd_normal", "CvssVerif.F64.rne_core", "CvssVerif.F64.pack_norm", "CvssVerif.F64.pack_carry",
                 "CvssVerif.F64.mul_eq_rnd", "CvssVerif.F64.add_same_sign", "CvssVerif.F64.add_opposite_sign", "CvssVerif.F64.sticky_core",
-                "CvssVerif.F64.rndRat_normal", "CvssVerif.F64.div_eq_rndRat"]
+                "CvssVerif.F64.rndRat_normal", "CvssVerif.F64.div_eq_rndRat", "CvssVerif.F64.mul_comm'", "CvssVerif.F64.add_comm'",
+                "CvssVerif.F64.round_pos", "CvssVerif.F64.round_small_and_large"]
 for _p in ("C01", "C02", "C03", "C04", "C05", "C06", "C13"):
     if _p in REGISTRY:
-        REGISTRY[_p].lean_modules = list(REGISTRY[_p].lean_modules) + [F64_MODULE]
+        REGISTRY[_p].lean_modules = list(REGISTRY[_p].lean_modules) + [F64_MODULE, "CvssVerif.Proofs.F64RoundFn"]
         REGISTRY[_p].theorems = list(REGISTRY[_p].theorems) + F64_THEOREMS
 
 
